@@ -323,32 +323,71 @@ func checkWitnessAll(c *Ctx, rule string) {
 		}
 	}
 	seen := map[string]bool{}
-	for _, cl := range Calls(fn) {
-		if !strings.HasSuffix(cl.Name, ".Witness") || !strings.HasPrefix(cl.Name, "repository.") {
-			continue
-		}
-		c.Sites++
-		args := cl.Args()
-		kind := clockKind(w, args[0])
-		base, fld, ok := loadOfField(stripConv(args[1]))
-		if !ok {
-			continue
-		}
-		// base must be the value of a range over the pack map
-		fromRange := false
+	isRangedPack := func(base ssa.Value) bool {
 		if ex, isEx := base.(*ssa.Extract); isEx {
 			if nx, isNx := ex.Tuple.(*ssa.Next); isNx {
 				if r, isR := nx.Iter.(*ssa.Range); isR && isPackMap(r.X.Type()) {
-					fromRange = true
+					return true
 				}
 			}
 		}
-		if !fromRange {
+		return false
+	}
+	// a witness event: the clock kind, the pack field witnessed, and the instruction of read at which it happens
+	type wev struct {
+		kind, fld string
+		site      *Call // in read: the Witness call itself, or the call of the helper that witnesses
+		direct    *Call // the Witness call (in read or in the helper)
+	}
+	var events []wev
+	for _, cl := range Calls(fn) {
+		if strings.HasSuffix(cl.Name, ".Witness") && strings.HasPrefix(cl.Name, "repository.") {
+			c.Sites++
+			args := cl.Args()
+			base, fld, ok := loadOfField(stripConv(args[1]))
+			if ok && isRangedPack(base) {
+				events = append(events, wev{clockKind(w, args[0]), fld, cl, cl})
+			}
 			continue
 		}
+		// a same-package helper handed the ranged pack, witnessing that pack's times unconditionally
+		h := cl.Fn
+		if h == nil || h.Pkg != fn.Pkg || len(h.Blocks) == 0 || h == fn {
+			continue
+		}
+		for ai, a := range cl.Instr.Common().Args {
+			if !isRangedPack(a) || ai >= len(h.Params) {
+				continue
+			}
+			for _, hc := range Calls(h) {
+				if !strings.HasSuffix(hc.Name, ".Witness") || !strings.HasPrefix(hc.Name, "repository.") {
+					continue
+				}
+				c.Sites++
+				hargs := hc.Args()
+				base, fld, ok := loadOfField(stripConv(hargs[1]))
+				if !ok || !isSameParam(base, h.Params[ai]) {
+					continue
+				}
+				// inside the helper: error propagated, conditional on nothing but the success of earlier steps
+				okIn := errorPropagated(hc.Value(), nil)
+				for _, cc := range controlConds(hc.Block(), nil) {
+					if e := errEdge(cc.If, defaultFail); e >= 0 && e != cc.Edge {
+						continue
+					}
+					okIn = false
+				}
+				if okIn {
+					events = append(events, wev{clockKind(w, hargs[0]), fld, cl, hc})
+				}
+			}
+		}
+	}
+	for _, ev := range events {
+		kind, fld, cl := ev.kind, ev.fld, ev.site
 		want := map[string]string{"create": "CreateTime", "edit": "EditTime"}[kind]
 		if want == "" || fld != want {
-			c.Violate(rule, "entity/dag.read:witness-"+kind+fld, w.InstrPos(cl.Instr), fmt.Sprintf("pack.%s is witnessed on the %q clock", fld, kind))
+			c.Violate(rule, "entity/dag.read:witness-"+kind+fld, w.InstrPos(ev.direct.Instr), fmt.Sprintf("pack.%s is witnessed on the %q clock", fld, kind))
 			continue
 		}
 		if !errorPropagated(cl.Value(), nil) {
@@ -494,8 +533,24 @@ func checkBFSComplete(c *Ctx, rule string, fn *ssa.Function) {
 	// except by a witness error itself
 	okTrace, whyTrace := true, ""
 	nW := 0
+	witnessNames := map[string]bool{}
+	isWitnessSite := func(cl *Call) bool {
+		if strings.HasSuffix(cl.Name, ".Witness") && strings.HasPrefix(cl.Name, "repository.") {
+			return true
+		}
+		// a same-package helper that witnesses
+		if h := cl.Fn; h != nil && h.Pkg == fn.Pkg && h != fn && len(h.Blocks) > 0 {
+			for _, hc := range Calls(h) {
+				if strings.HasSuffix(hc.Name, ".Witness") && strings.HasPrefix(hc.Name, "repository.") {
+					witnessNames[cl.Name] = true
+					return true
+				}
+			}
+		}
+		return false
+	}
 	for _, cl := range Calls(fn) {
-		if !strings.HasSuffix(cl.Name, ".Witness") || !strings.HasPrefix(cl.Name, "repository.") {
+		if !isWitnessSite(cl) {
 			continue
 		}
 		nW++
@@ -510,7 +565,7 @@ func checkBFSComplete(c *Ctx, rule string, fn *ssa.Function) {
 				return false
 			}
 			for _, o := range origins(ReturnResult(r, idx)) {
-				if o.Kind == "call" && strings.HasSuffix(o.Name, ".Witness") {
+				if o.Kind == "call" && (strings.HasSuffix(o.Name, ".Witness") || witnessNames[o.Name]) {
 					continue
 				}
 				return true
